@@ -41,15 +41,15 @@ def to_cover(scope: str, mod: str):
 
     no_cover, only_cover = [], []
     if scope == "no_g":
-        no_cover = [f"{mod}.g"]
+        no_cover = ["g"]
     elif scope == "only_f":
-        only_cover = [f"{mod}.f"]
+        only_cover = ["f"]
     elif scope == "no_meth":
-        no_cover = [f"{mod}.K.meth"]
+        no_cover = ["K.meth"]
     elif scope == "no_K":
-        no_cover = [f"{mod}.K"]
+        no_cover = ["K"]
     elif scope == "only_K":
-        only_cover = [f"{mod}.K"]
+        only_cover = ["K"]
     return config.ToCoverConfiguration(no_cover=no_cover, only_cover=only_cover)
 
 
